@@ -24,12 +24,12 @@ OBLIGATIONS = ["NiftyVerif.C14." + t for t in (
     "gradnorm_ctrl_sound", "gradinf_ctrl_sound", "deltaE_ctrl_sound", "absdeltaE_ctrl_sound", "stochastic_ctrl_sound",
     "norm_comparisons_sqrt_free",
     "cg_controller_replay", "cg_verdict_sound", "cg_ctrl_sound", "cg_gradnorm_sound", "cg_gradinf_sound",
-    "cg_deltaE_sound", "cg_absdeltaE_sound", "cg_stochastic_sound",
+    "cg_deltaE_sound", "cg_absdeltaE_sound", "cg_stochastic_sound", "cg_gradnorm_error_bound", "cg_energy_gap_is_error",
     "cg_alpha_positive_or_error", "cg_no_error_spd", "cg_energy_monotone",
     "cg_status_final", "cg_result_not_worse", "cg_conjugacy_invariants", "cg_exact_in_n_steps", "cg_exact_hermitian", "cg_exact_solution", "cg_optimal_on_subspace", "cg_optimal_on_krylov",
     "ie_modes_available", "inversion_enabler_direct", "inversion_enabler_solves", "inversion_enabler_run",
     "inversion_enabler_solves_gradinf", "inversion_enabler_solves_deltaE", "inversion_enabler_solves_absdeltaE",
-    "inversion_enabler_solves_stochastic", "complex_hermitian_covered", "cg_exact_complex", "driver_instance_lawful")]
+    "inversion_enabler_solves_stochastic", "inversion_enabler_error_bound", "complex_hermitian_covered", "cg_exact_complex", "driver_instance_lawful")]
 RULE = ("cases: (qe) QuadraticEnergy at/at_with_grad on integer systems, exact; (ctrl) each of the 5 controllers fed "
         "with generated observation sequences (exact dyadic), all levels/limits incl. degenerate; (cg) generated "
         "integer HPD systems real/complex, +-preconditioner, every controller, nreset 1..5/20, whole trajectory compared "
